@@ -956,10 +956,13 @@ def wai_case(rng):
     nr = rng.choice([1, 2, 3])
     case = {'geo': geo, 'rocks': ['rock%d' % i for i in range(nr)], 'assign': [rng.randrange(nr) for _ in blocks]}
     vol = {}
-    for bn in blocks:
+    natm = {0: 1, 1: len(geo['dx']) * len(geo['dy']), 2: 0}[geo['atm']]
+    for k, bn in enumerate(blocks):
         r = rng.random()
         if r < 0.08: vol[bn] = 0.0
-        elif r < 0.16: vol[bn] = rng.choice([1.e25, 1.e30, 1.e50, 1.e20])
+        elif r < 0.16:
+            # an atmosphere block (no centre) stays a boundary block whatever atmos_volume is used below
+            vol[bn] = rng.choice([1.e25, 1.e30, 1.e50] if k < natm else [1.e25, 1.e30, 1.e50, 1.e20])
     if rng.random() < 0.3: vol = {}
     case['vol'] = vol
     case['atmos_volume'] = rng.choice([1.e25, 1.e25, 1.e25, 1.e20, 1.e30])
@@ -988,7 +991,7 @@ def wai_case(rng):
         else: multi = [('eos', 'EWA')]; sim = base + 'EW'
     case['eos'] = {'mode': mode, 'name': name, 'arg': arg}
     case['simulator'], case['multi'] = sim, multi
-    case['incons'] = [1.e5, 20., 0.25, 0.0][:rng.choice([4, 4, 4, 3, 2, 1, 0])]
+    case['incons'] = [1.e5, 20., 0.25, 0.0][:rng.choice([4, 4, 4, 4, 4, 4, 4, 3, 2, 1, 0])]
     gens = []
     pool = blocks + ['zzz 9']
     wf = True
@@ -1201,6 +1204,7 @@ THEOREMS = ['Props.C20.' + t for t in [
     'rock_cells_partition', 'rock_cells_own_type_exists', 'boundary_blocks_complement', 'sources_spec',
     'source_cell_is_block_index', 'eos_explicit', 'eos_from_multi', 'eos_from_simulator',
     'eos_detected_from_simulator',
+    'add_generator_spec', 'delete_generator_spec', 'insert_delete_section_spec',
 ]] + [
     # obligations on the generated tables (decide over the whole table, re-elaborated against /repo's current tables)
     'Proofs.Convert.convert_targets_tough2',
@@ -1343,7 +1347,7 @@ def run(ctx, scale=1.0, model=True):
     fc, ff, fh = res.facet('convert'), res.facet('convert_file'), res.facet('history_lines')
     fe, fr, fs, fb = res.facet('waiwera_eos'), res.facet('waiwera_rocks'), res.facet('waiwera_sources'), res.facet('waiwera_boundary')
     lines, expect = [], []        # driver requests and (facet, expected reply, case-json, decode?)
-    hyp_nodup = [0, 0]
+    hyp_nodup, hyp_ids, hyp_wf, hyp_rt, hyp_hg = [0, 0], [0, 0], [0, 0], [0, 0], [0, 0]
     for case in conv_stream(ctx, scale):
         viol, b, outcome, st1, st0, scope = oracle_conversion(case, ctx.tmp, order)
         res.violations += viol
@@ -1368,6 +1372,18 @@ def run(ctx, scale=1.0, model=True):
                       + ('+names' if any(i[0] in 'ST' for i in st0['hb'] + st0['hc'] + st0['hg']) else ''))
         hyp_nodup[1] += 1
         if len(set(st0['sections'])) == len(st0['sections']): hyp_nodup[0] += 1
+        hyp_ids[1] += 1
+        if len({g[0] for g in st0['gens']}) == len(st0['gens']): hyp_ids[0] += 1
+        hyp_wf[1] += 1
+        byid = {g[0]: (g[1], g[2]) for g in st0['gens']}
+        if all(byid.get(e[2], (e[0], e[1])) == (e[0], e[1]) for e in st0['gendict']) and all(e[2] in byid for e in st0['gendict']): hyp_wf[0] += 1
+        if scope == 'a2t' and outcome[0] == 'ok':
+            hyp_rt[1] += 1
+            blocks = set(st1['blocks'])
+            if blocks and all(i[0] == 'B' and i[1] in blocks for i in st1['hb'] + st1['hg']) and all(i[0] == 'C' for i in st1['hc']): hyp_rt[0] += 1
+        if scope == 't2a':
+            hyp_hg[1] += 1
+            if not st0['hg']: hyp_hg[0] += 1
         enc0 = eT2(st0); ops = eL(eOp, case['ops'])
         key = enc0 + '|' + ops
         if nontrivial_conv(case, st0, st1, outcome): res.distinct.add(key)
@@ -1406,7 +1422,11 @@ def run(ctx, scale=1.0, model=True):
                     else:
                         lines.append('rhist %s %s' % (eL(eS, st1['blocks']), eL(eS, names)))
                     expect.append(('history_lines', items, case, None))
-    res.hyp['sections.Nodup (hypothesis of to_tough2_sections / to_autough2_sections)'] = hyp_nodup
+    res.hyp['sections.Nodup (to_tough2_no_autough2_sections, second part)'] = hyp_nodup
+    res.hyp['generator objects distinct (to_tough2_generators)'] = hyp_ids
+    res.hyp['lookup keys distinct, entries point to listed generators of that block and name (to_tough2_lookup, ..._consistent)'] = hyp_wf
+    res.hyp['history lists of the converted model hold only grid blocks / connections (to_tough2_history_roundtrip_partial)'] = hyp_rt
+    res.hyp['history_generator empty (to_autough2_requests_kept_partial)'] = hyp_hg
     # Waiwera
     for case in wai_stream(ctx, scale):
         geo, d, obs, full, err = wai_real(case)
